@@ -16,3 +16,6 @@ class Sub:
 
     def input_classes(self, case):
         return self.mod.input_classes(case) if hasattr(self.mod, "input_classes") else []
+
+    def sanitizer_scope(self, case):
+        return self.mod.sanitizer_scope(case) if hasattr(self.mod, "sanitizer_scope") else True
